@@ -1,7 +1,9 @@
 (* C20 correspondence driver: runs the extracted model of Model/Empty.v on the harness's lines.
    G lines: insertion / stripping / emptiness / dimension of the model against the harness and the
    implementation.  C lines: every call of the reflective enumeration is judged: no panic outside
-   the documented classes, zero value = explicit empty, neutral answer table, transparency. *)
+   the documented classes, zero value = explicit empty, neutral answer table, transparency; H lines:
+   the TWKB header options on geometries with empty members (bounding box transparent and truthful,
+   size, ID list). *)
 open Model
 open Sfio
 
@@ -249,6 +251,72 @@ let judge_transparent (out1 : string) (out2 : string) (cmp : string) : string op
     !bad
   end
 
+(* ---------------------------------------------------------------- TWKB header lines (kind H) *)
+let kv_of_obs (s : string) : (string * string) list =
+  List.filter_map (fun f -> match String.index_opt f '=' with
+      | Some i -> Some (String.sub f 0 i, String.sub f (i + 1) (String.length f - i - 1))
+      | None -> None) (String.split_on_char ';' s)
+let kv l k = try List.assoc k l with Not_found -> "<missing>"
+
+(* the bounding box MarshalTWKB must announce for g (Model/TWKB.v: env_of (geom_pts g), the
+   specification of C07), rendered as the harness renders UnmarshalTWKBEnvelope's answer *)
+let expected_bbox (g : z geomT) : string =
+  let ct = geom_ct g in
+  let i = int_of_z in
+  match twkb_bbox_z g with
+  | None -> "none"
+  | Some mm ->
+    (match mm with
+     | (x0, x1) :: (y0, y1) :: rest ->
+       let xy = Printf.sprintf "xy:%d,%d,%d,%d" (i x0) (i y0) (i x1) (i y1) in
+       let rng tag = function Some (a, b) -> Printf.sprintf "/%s:%d,%d" tag (i a) (i b) | None -> "/" ^ tag ^ ":-" in
+       let z, rest = if ct_has_z ct then (match rest with r :: t -> Some r, t | [] -> None, []) else None, rest in
+       let m = if ct_has_m ct then (match rest with r :: _ -> Some r | [] -> None) else None in
+       xy ^ rng "z" z ^ rng "m" m
+     | _ -> "malformed")
+
+(* returns the list of (check name, detail) that fail *)
+let judge_twkb_headers (argdesc : string) (dumpA : string) (dumpB : string) (out1 : string) (out2 : string)
+  : (string * string * string) list =
+  let has o = List.mem o (String.split_on_char ',' (String.sub argdesc 1 (String.length argdesc - 2))) in
+  let o1 = kv_of_obs out1 and o2 = kv_of_obs out2 in
+  let gi = parse_idump dumpA and gb = parse_idump dumpB in
+  let bad = ref [] in
+  let add kind name d = bad := (kind, name, d) :: !bad in
+  if idump (strip_empties gi) <> dumpB then add "CORR" "twkb_base_is_strip" ("strip_empties of the first dump is " ^ idump (strip_empties gi));
+  if kv o2 "m" <> "ok" then add "SPEC" "twkb_marshal" ("MarshalTWKB refuses the base geometry: " ^ out2)
+  else if kv o1 "m" <> "ok" then begin
+    (* finding F5 (C07): TWKB cannot carry an empty Point inside a non-empty MultiPoint - an error return *)
+    if twkb_refuses gi then count "twkb_refused_empty_point_in_multipoint"
+    else add "SPEC" "twkb_marshal" ("MarshalTWKB refuses the geometry with empty members: " ^ out1)
+  end else begin
+    count "twkb_headers_judged";
+    (* transparency: the announced box (and the library's own envelope) cannot see empty members *)
+    if kv o1 "bbox" <> kv o2 "bbox" then
+      add "SPEC" "twkb_bbox_transparent" (Printf.sprintf "bbox header with empty members %s ; without %s" (kv o1 "bbox") (kv o2 "bbox"));
+    if kv o1 "env" <> kv o2 "env" then
+      add "SPEC" "twkb_bbox_transparent" (Printf.sprintf "Envelope() with empty members %s ; without %s" (kv o1 "env") (kv o2 "env"));
+    List.iter (fun (o, g, what) ->
+        let bb = kv o "bbox" in
+        if has "bbox" then begin
+          let want = expected_bbox g in
+          if bb <> want then add "SPEC" "twkb_bbox_truthful" (Printf.sprintf "%s: bbox header %s ; min/max over the vertices %s" what bb want);
+          let pre = "xy:" ^ kv o "env" ^ "/" in
+          if not (starts_with pre bb) then add "SPEC" "twkb_bbox_equals_envelope" (Printf.sprintf "%s: bbox header %s ; Envelope() %s" what bb (kv o "env"))
+        end else if bb <> "-" then add "SPEC" "twkb_bbox_truthful" (what ^ ": a bbox header that was not requested: " ^ bb);
+        let sz = kv o "size" in
+        if has "size" then begin
+          if sz <> kv o "len" then add "SPEC" "twkb_size_truthful" (Printf.sprintf "%s: size header %s ; document has %s bytes" what sz (kv o "len"))
+        end else if sz <> "-" then add "SPEC" "twkb_size_truthful" (what ^ ": a size header that was not requested: " ^ sz);
+        let ids = kv o "ids" in
+        if has "ids" then begin
+          if ids <> kv o "given" then add "SPEC" "twkb_ids_truthful" (Printf.sprintf "%s: ID list read %s ; given %s" what ids (kv o "given"))
+        end else if ids <> "-" then add "SPEC" "twkb_ids_truthful" (what ^ ": an ID list that was not given: " ^ ids);
+        if kv o "rt" <> "eq" then add "SPEC" "twkb_payload" (Printf.sprintf "%s: decoded value differs from the base beyond empty members: %s" what (kv o "rt")))
+      [ (o1, gi, "with empty members"); (o2, gb, "base") ]
+  end;
+  List.rev !bad
+
 (* ---------------------------------------------------------------- main loop *)
 let () =
   let path = Sys.argv.(1) in
@@ -334,6 +402,9 @@ let () =
                 end else count "structure_dependent_not_compared"
               | "R" ->
                 if out1 <> out2 then fail id "SPEC" "codec_roundtrip" (trunc (where ^ ": decoded " ^ out1 ^ " ; value " ^ out2))
+              | "H" ->
+                List.iter (fun (kind, name, d) -> fail id kind name (trunc (d ^ " :: " ^ where)))
+                  (judge_twkb_headers argdesc dumpA dumpB out1 out2)
               | "U" -> count "unmodelled_surface_no_panic"
               | k -> fail id "CORR" "protocol" ("unknown kind " ^ k)
             end
